@@ -1416,3 +1416,626 @@ Proof.
     + rewrite Forall_forall in Hss. apply Hss. exact Hs.
     + apply sort_params_sorted_in. right. exact Hs.
 Qed.
+
+(* ================================================================== *)
+(* Part 5 — mask / sig_partial / forwards                              *)
+
+(* number of parameters called y *)
+Definition cntn (y : name) (ps : list param) : nat :=
+  length (filter (fun p => N.eqb y (pname p)) ps).
+
+Lemma cntn_app y a b : cntn y (a ++ b) = (cntn y a + cntn y b)%nat.
+Proof. unfold cntn. rewrite filter_app, app_length. reflexivity. Qed.
+
+Lemma cntn_cons y p ps : cntn y (p :: ps) = ((if N.eqb y (pname p) then 1 else 0) + cntn y ps)%nat.
+Proof. unfold cntn. cbn [filter]. destruct (N.eqb y (pname p)); reflexivity. Qed.
+
+Lemma cntn_nil y : cntn y [] = 0%nat.
+Proof. reflexivity. Qed.
+
+Lemma memn_cntn y ps : memn y ps = true -> (1 <= cntn y ps)%nat.
+Proof.
+  induction ps as [|p ps IH]; [discriminate|]. rewrite memn_cons, cntn_cons.
+  destruct (N.eqb y (pname p)); cbn [orb]; [lia|]. intros H. apply IH in H. lia.
+Qed.
+
+Lemma memn_false_cntn y ps : memn y ps = false -> cntn y ps = 0%nat.
+Proof.
+  induction ps as [|p ps IH]; [reflexivity|]. rewrite memn_cons, cntn_cons.
+  destruct (N.eqb y (pname p)); cbn [orb]; [discriminate|]. exact IH.
+Qed.
+
+Lemma cntn_memn_false y ps : cntn y ps = 0%nat -> memn y ps = false.
+Proof. intros H. destruct (memn y ps) eqn:E; [apply memn_cntn in E; lia | reflexivity]. Qed.
+
+Lemma cntn_od_set_le y d p :
+  (cntn y (od_set d p) <= cntn y d + (if N.eqb y (pname p) then 1 else 0))%nat.
+Proof.
+  induction d as [|q d IH]; cbn [od_set].
+  - rewrite cntn_cons, cntn_nil. lia.
+  - destruct (N.eqb_spec (pname p) (pname q)) as [E|E]; rewrite !cntn_cons.
+    + rewrite E. destruct (N.eqb y (pname q)); lia.
+    + destruct (N.eqb y (pname q)), (N.eqb y (pname p)); lia.
+Qed.
+
+Lemma cntn_od_update_le y u : forall d, (cntn y (od_update d u) <= cntn y d + cntn y u)%nat.
+Proof.
+  unfold od_update. induction u as [|p u IH]; intros d; cbn [fold_left]; [rewrite cntn_nil; lia|].
+  specialize (IH (od_set d p)). pose proof (cntn_od_set_le y d p) as H. rewrite cntn_cons. lia.
+Qed.
+
+Lemma cntn_remove_le y x ps : (cntn y (remove_param x ps) <= cntn y ps)%nat.
+Proof.
+  induction ps as [|q ps IH]; cbn [remove_param]; [lia|].
+  destruct (N.eqb x (pname q)); rewrite ?cntn_cons; lia.
+Qed.
+
+Lemma cntn_map_kind y k ps : cntn y (map (set_kind k) ps) = cntn y ps.
+Proof. induction ps as [|q ps IH]; [reflexivity|]. cbn [map]. rewrite !cntn_cons, IH. reflexivity. Qed.
+
+Lemma nodup_cntn ps y : NoDup (names_of ps) -> (cntn y ps <= 1)%nat.
+Proof.
+  induction ps as [|p ps IH]; intros H; [cbn; lia|]. cbn [names_of map] in H.
+  inversion H as [|? ? Hp Hn]; subst. rewrite cntn_cons. specialize (IH Hn).
+  destruct (N.eqb_spec y (pname p)) as [->|Hy]; [|lia].
+  apply mem_false_In in Hp. fold (memn (pname p) ps) in Hp. rewrite (memn_false_cntn _ _ Hp). lia.
+Qed.
+
+Lemma memn_remove y x ps : memn y (remove_param x ps) = memn y ps && negb (N.eqb y x).
+Proof.
+  induction ps as [|q ps IH]; cbn [remove_param]; [reflexivity|].
+  destruct (N.eqb_spec x (pname q)) as [E|E]; rewrite ?memn_cons, IH.
+  - subst x. destruct (N.eqb y (pname q)); cbn; [rewrite andb_false_r; reflexivity | reflexivity].
+  - destruct (N.eqb_spec y (pname q)) as [->|Hy]; cbn [orb]; [|reflexivity].
+    destruct (N.eqb_spec (pname q) x); [congruence|]. reflexivity.
+Qed.
+
+Lemma split_at_name_spec x ps : forall a q b,
+  split_at_name x ps = Some (a, q, b) -> ps = a ++ q :: b /\ pname q = x.
+Proof.
+  induction ps as [|p ps IH]; intros a q b; cbn [split_at_name]; [discriminate|].
+  destruct (N.eqb_spec x (pname p)) as [E|E].
+  - intros H; inversion H; subst. split; reflexivity.
+  - destruct (split_at_name x ps) as [[[a' q'] b']|]; [|discriminate].
+    intros H; inversion H; subst. destruct (IH _ _ _ eq_refl) as [A B]. subst ps. split; [reflexivity | exact B].
+Qed.
+
+Lemma split_at_name_none x ps : split_at_name x ps = None -> memn x ps = false.
+Proof.
+  induction ps as [|p ps IH]; cbn [split_at_name]; [reflexivity|]. rewrite memn_cons.
+  destruct (N.eqb x (pname p)); [discriminate|].
+  destruct (split_at_name x ps) as [[[a q] b]|]; [discriminate|]. intros _. apply IH. reflexivity.
+Qed.
+
+(* no key with an empty list *)
+Definition NE (m : srcmap) : Prop := forall y, src_mem m y = true -> src_get m y <> [].
+
+Lemma NE_pop m k : NE m -> NE (src_pop m k).
+Proof.
+  intros H y. rewrite src_mem_pop, src_get_pop. intros Hy. apply andb_true_iff in Hy.
+  destruct Hy as [Hy Hk]. apply negb_true_iff in Hk. rewrite Hk. apply H. exact Hy.
+Qed.
+
+Lemma NE_pop_all ks : forall m, NE m -> NE (src_pop_all m ks).
+Proof.
+  unfold src_pop_all. induction ks as [|k ks IH]; intros m H; cbn [fold_left]; [exact H|].
+  apply IH. apply NE_pop. exact H.
+Qed.
+
+Lemma NE_pop_star b o m : NE m -> NE (pop_star b o m).
+Proof. unfold pop_star. destruct o; [|auto]. destruct b; [apply NE_pop | auto]. Qed.
+
+Section MaskInv.
+Variable pm : pmode.
+Variable fx : list param.          (* parameters mask_names never touches *)
+Variable ova : option param.       (* the signature's own star-args *)
+
+Definition live (st : kstate) (y : name) : bool :=
+  memn y (k_pok st) || memn y (opt_list (k_va st)) || memn y (k_kwo st) || memn y fx.
+
+Definition KI (st : kstate) : Prop :=
+  NoDup (keys (k_src st)) /\
+  (forall y, src_mem (k_src st) y = live st y) /\
+  NE (k_src st) /\
+  (forall v, k_va st = Some v ->
+     ova = Some v /\ memn (pname v) (k_pok st) = false /\ memn (pname v) (k_kwo st) = false /\
+     memn (pname v) fx = false) /\
+  (pm = None -> forall y, (cntn y (k_pok st) + cntn y (k_kwo st) + cntn y fx <= 1)%nat).
+
+Lemma va_false_of st x : KI st -> (memn x (k_pok st) = true \/ memn x (k_kwo st) = true \/ memn x fx = true) ->
+  memn x (opt_list (k_va st)) = false.
+Proof.
+  intros (_ & _ & _ & K4 & _) H. rewrite memn_opt. destruct (k_va st) as [v|]; [|reflexivity].
+  destruct (N.eqb_spec x (pname v)) as [->|]; [|reflexivity].
+  destruct (K4 v eq_refl) as (_ & A & B & C). rewrite A, B, C in H. destruct H as [H|[H|H]]; discriminate.
+Qed.
+
+Lemma mask_name_KI hv st kv st' :
+  KI st -> (pm <> None -> forall v, ova = Some v -> fst kv <> pname v) ->
+  mask_name pm hv st kv = Ok st' -> KI st'.
+Proof.
+  intros HK Hx. pose proof HK as (K1 & K2 & K3 & K4 & K5). unfold mask_name.
+  set (x := fst kv) in *.
+  destruct (mem x (k_consumed st)); [discriminate|].
+  destruct (split_at_name x (k_pok st)) as [[[before p] after]|] eqn:Es.
+  - destruct (split_at_name_spec _ _ _ _ _ Es) as [Hpok Hp].
+    assert (Hxin : memn x (k_pok st) = true).
+    { rewrite Hpok, memn_app, memn_cons, Hp, N.eqb_refl. apply orb_true_r. }
+    pose proof (va_false_of st x HK (or_introl Hxin)) as Hvx.
+    assert (Hlive : forall y, live st y = memn y before || N.eqb y x || memn y after
+                                 || memn y (opt_list (k_va st)) || memn y (k_kwo st) || memn y fx).
+    { intros y. unfold live. rewrite Hpok, memn_app, memn_cons, Hp. btauto. }
+    assert (Hva : forall y, memn y (opt_list (k_va st)) = true ->
+                   memn y before = false /\ N.eqb y x = false /\ memn y after = false /\
+                   memn y (k_kwo st) = false /\ memn y fx = false).
+    { intros y Hy. destruct (k_va st) as [v|] eqn:Ev; [|discriminate Hy].
+      rewrite memn_opt in Hy. apply N.eqb_eq in Hy. subst y.
+      destruct (K4 v eq_refl) as (_ & A & B & C).
+      rewrite Hpok, memn_app, memn_cons, Hp in A.
+      destruct (memn (pname v) before), (N.eqb (pname v) x), (memn (pname v) after); try discriminate A.
+      auto. }
+    destruct pm as [pobj|] eqn:Epm.
+    + intros E; inversion E; subst st'. clear E.
+      fold (pop_star true (k_va st) (k_src st)).
+      unfold KI. cbn [k_src k_pok k_va k_kwo]. split; [|split; [|split; [|split]]].
+      * apply pop_star_nodup. exact K1.
+      * intros y. rewrite pop_star_mem, popped_opt, K2, Hlive. unfold live. cbn [k_pok k_va k_kwo opt_list andb].
+        rewrite memn_od_set, memn_od_update, memn_map_kind, memn_nil.
+        change (pname (set_def (Some (snd kv)) (set_kind KO p))) with (pname p). rewrite Hp.
+        destruct (memn y (opt_list (k_va st))) eqn:EV.
+        -- destruct (Hva y EV) as (A & B & C & D & F). rewrite A, B, C, D, F. reflexivity.
+        -- cbn [negb]. btauto.
+      * apply NE_pop_star. exact K3.
+      * intros v H; discriminate H.
+      * intros H; congruence.
+    + intros E; inversion E; subst st'. clear E.
+      fold (pop_star true (k_va st) (src_pop (k_src st) x)).
+      pose proof (K5 eq_refl x) as Hc. rewrite Hpok, cntn_app, cntn_cons, Hp, N.eqb_refl in Hc.
+      assert (Z1 : memn x before = false) by (apply cntn_memn_false; lia).
+      assert (Z2 : memn x after = false) by (apply cntn_memn_false; lia).
+      assert (Z3 : memn x (k_kwo st) = false) by (apply cntn_memn_false; lia).
+      assert (Z4 : memn x fx = false) by (apply cntn_memn_false; lia).
+      unfold KI. cbn [k_src k_pok k_va k_kwo]. split; [|split; [|split; [|split]]].
+      * apply pop_star_nodup. apply nodup_pop. exact K1.
+      * intros y. rewrite pop_star_mem, popped_opt, src_mem_pop, K2, Hlive. unfold live.
+        cbn [k_pok k_va k_kwo opt_list andb]. rewrite memn_od_update, memn_map_kind, memn_nil.
+        destruct (N.eqb_spec y x) as [->|Hy].
+        -- rewrite Z1, Z2, Z3, Z4, Hvx. reflexivity.
+        -- destruct (memn y (opt_list (k_va st))) eqn:EV.
+           ++ destruct (Hva y EV) as (A & B & C & D & F). rewrite A, C, D, F. reflexivity.
+           ++ cbn [negb]. btauto.
+      * apply NE_pop_star. apply NE_pop. exact K3.
+      * intros v H; discriminate H.
+      * intros _ y. pose proof (K5 eq_refl y) as Hy. rewrite Hpok, cntn_app, cntn_cons in Hy.
+        pose proof (cntn_od_update_le y (map (set_kind KO) after) (k_kwo st)) as Hu.
+        rewrite cntn_map_kind in Hu. lia.
+  - apply split_at_name_none in Es.
+    destruct (find_param x (k_kwo st)) as [p|] eqn:Ef.
+    + destruct (find_param_In _ _ _ Ef) as [Hin Hp].
+      assert (Hxin : memn x (k_kwo st) = true) by (rewrite <- Hp; apply memn_intro; exact Hin).
+      pose proof (va_false_of st x HK (or_intror (or_introl Hxin))) as Hvx.
+      destruct pm as [pobj|] eqn:Epm.
+      * intros E; inversion E; subst st'. clear E.
+        unfold KI. cbn [k_src k_pok k_va k_kwo]. split; [|split; [|split; [|split]]]; try assumption.
+        -- intros y. rewrite K2. unfold live. cbn [k_pok k_va k_kwo]. rewrite memn_od_set.
+           change (pname (set_def (Some (snd kv)) (set_kind KO p))) with (pname p). rewrite Hp.
+           destruct (N.eqb_spec y x) as [->|Hy]; [rewrite Hxin|]; btauto.
+        -- intros v H. destruct (K4 v H) as (A0 & A & B & C). repeat split; try assumption.
+           rewrite memn_od_set. change (pname (set_def (Some (snd kv)) (set_kind KO p))) with (pname p).
+           rewrite Hp, B. cbn [orb].
+           destruct (N.eqb_spec (pname v) x) as [E|E]; [|reflexivity]. rewrite <- E, B in Hxin. discriminate.
+        -- intros H; congruence.
+      * intros E; inversion E; subst st'. clear E.
+        pose proof (K5 eq_refl x) as Hc. apply memn_cntn in Hxin.
+        assert (Z4 : memn x fx = false) by (apply cntn_memn_false; lia).
+        unfold KI. cbn [k_src k_pok k_va k_kwo]. split; [|split; [|split; [|split]]].
+        -- apply nodup_pop. exact K1.
+        -- intros y. rewrite src_mem_pop, K2. unfold live. cbn [k_pok k_va k_kwo]. rewrite memn_remove.
+           destruct (N.eqb_spec y x) as [->|Hy]; [rewrite Es, Hvx, Z4|]; btauto.
+        -- apply NE_pop. exact K3.
+        -- intros v H. destruct (K4 v H) as (A0 & A & B & C). repeat split; try assumption.
+           rewrite memn_remove, B. reflexivity.
+        -- intros _ y. pose proof (K5 eq_refl y) as Hy. pose proof (cntn_remove_le y x (k_kwo st)). lia.
+    + apply find_param_none in Ef. destruct (negb hv); [discriminate|].
+      destruct pm as [pobj|] eqn:Epm.
+      * intros E; inversion E; subst st'. clear E.
+        unfold KI. cbn [k_src k_pok k_va k_kwo]. split; [|split; [|split; [|split]]].
+        -- apply nodup_set. exact K1.
+        -- intros y. rewrite src_mem_set, K2. unfold live. cbn [k_pok k_va k_kwo]. rewrite memn_od_set.
+           cbn [pname]. btauto.
+        -- intros y. rewrite src_mem_set, src_get_set. destruct (N.eqb y x); [discriminate|].
+           rewrite orb_false_r. apply K3.
+        -- intros v H. destruct (K4 v H) as (A0 & A & B & C). repeat split; try assumption.
+           rewrite memn_od_set. cbn [pname]. rewrite B. cbn [orb].
+           destruct (N.eqb_spec (pname v) x) as [E|E]; [|reflexivity].
+           exfalso. apply (Hx ltac:(congruence) v A0). symmetry. exact E.
+        -- intros H; congruence.
+      * intros E; inversion E; subst st'. clear E. exact HK.
+Qed.
+
+Lemma mask_names_KI hv kvs : forall st st',
+  KI st -> (pm <> None -> forall v, ova = Some v -> ~ In (pname v) (map fst kvs)) ->
+  mask_names pm hv st kvs = Ok st' -> KI st'.
+Proof.
+  induction kvs as [|kv kvs IH]; intros st st' Hst Hx; cbn [mask_names].
+  - intros E; inversion E; subst; exact Hst.
+  - intros E. apply bind_ok in E. destruct E as [st1 [E1 E2]].
+    eapply IH; [| |exact E2].
+    + eapply mask_name_KI; [exact Hst | | exact E1].
+      intros Hpm v Hv Heq. apply (Hx Hpm v Hv). left. exact Heq.
+    + intros Hpm v Hv Hin. apply (Hx Hpm v Hv). right. exact Hin.
+Qed.
+End MaskInv.
+
+Lemma skipn_split (n : nat) (a b : list param) :
+  a ++ b = firstn n (a ++ b) ++ skipn n a ++ skipn (n - length a) b.
+Proof. rewrite <- skipn_app. symmetry. apply firstn_skipn. Qed.
+
+Lemma pop_star_true o m :
+  match o with Some v => src_pop m (pname v) | None => m end = pop_star true o m.
+Proof. destruct o; reflexivity. Qed.
+
+Lemma cntn_opt_self v : cntn (pname v) (opt_list (Some v)) = 1%nat.
+Proof. cbn [opt_list]. rewrite cntn_cons, N.eqb_refl, cntn_nil. reflexivity. Qed.
+
+Ltac cnt_case b E := destruct b eqn:E; [apply memn_cntn in E|].
+
+(* C08 keys / non-empty for _mask in both modes.  In partial mode (pm = Some _)
+   the keyword names bound by the partial must not contain the name of the
+   star-args parameter (see sig_partial_keys_refuted below) and the star-kwargs
+   parameter is not hidden (signature(partial) never hides it). *)
+Theorem mask_gen_src_ok s n h named0 pm r :
+  mask_gen s n h named0 pm = Ok r ->
+  valid_sig (params s) = true -> src_ok s ->
+  (pm <> None -> (h_kwargs h || h_varkwargs h) = false /\
+     forall v, varargs (sort_params s) = Some v -> ~ In (pname v) (map fst named0)) ->
+  src_ok r.
+Proof.
+  intros E Hv Hs Hpm. unfold mask_gen in E.
+  set (so := sort_params s) in *.
+  pose proof (sort_params_sorted_ok s Hv Hs) as (S1 & S2 & S3). fold so in S1, S2, S3.
+  pose proof (sort_params_nodup s Hv) as Hnd. fold so in Hnd.
+  apply bind_ok in E. destruct E as [[[pos1 pok1] consumed] [Ec E]].
+  assert (Hc : exists gone, posargs so ++ pokargs so = gone ++ pos1 ++ pok1 /\ consumed = names_of gone).
+  { destruct (h_args h).
+    - inversion Ec; subst. exists (posargs so ++ pokargs so). rewrite app_nil_r. auto.
+    - destruct (Nat.eqb n 0).
+      + inversion Ec; subst. exists []. auto.
+      + destruct (_ && _); [discriminate|]. inversion Ec; subst.
+        exists (firstn n (posargs so ++ pokargs so)). split; [apply skipn_split | reflexivity]. }
+  destruct Hc as [gone [Hg Hcons]]. clear Ec.
+  assert (Hcnt : forall y, (cntn y gone + cntn y pos1 + cntn y pok1 + cntn y (opt_list (varargs so))
+                            + cntn y (kwoargs so) + cntn y (opt_list (varkwargs so)) <= 1)%nat).
+  { intros y. pose proof (nodup_cntn (flatten so) y Hnd) as H. unfold flatten in H.
+    rewrite app_assoc, Hg in H. rewrite !cntn_app in H. lia. }
+  assert (Hflat : forall y, memn y (flatten so) =
+            memn y gone || memn y pos1 || memn y pok1 || memn y (opt_list (varargs so))
+            || memn y (kwoargs so) || memn y (opt_list (varkwargs so))).
+  { intros y. unfold flatten. rewrite app_assoc, Hg, !memn_app. btauto. }
+  assert (S3' : NE (ssrc so)).
+  { intros y Hy. apply S3. rewrite <- S2. exact Hy. }
+  set (src1 := src_pop_all (ssrc so) consumed) in *.
+  assert (C1 : NoDup (keys src1) /\ NE src1 /\
+               forall y, src_mem src1 y = memn y pos1 || memn y pok1 || memn y (opt_list (varargs so))
+                                          || memn y (kwoargs so) || memn y (opt_list (varkwargs so))).
+  { split; [apply nodup_pop_all; exact S1|]. split; [apply NE_pop_all; exact S3'|].
+    intros y. unfold src1. rewrite src_pop_all_mem, S2, Hcons. fold (memn y (flatten so)) (memn y gone).
+    rewrite Hflat. pose proof (Hcnt y) as Hy.
+    cnt_case (memn y gone) EG; cnt_case (memn y pos1) EP; cnt_case (memn y pok1) EK;
+      cnt_case (memn y (opt_list (varargs so))) EV; cnt_case (memn y (kwoargs so)) EW;
+      cnt_case (memn y (opt_list (varkwargs so))) EZ; first [reflexivity | exfalso; lia]. }
+  destruct C1 as (C1a & C1b & C1c).
+  destruct (if h_args h || h_varargs h then _ else _) as [va1 src2] eqn:Eva.
+  assert (C2 : (va1 = None \/ va1 = varargs so) /\ NoDup (keys src2) /\ NE src2 /\
+               forall y, src_mem src2 y = memn y pos1 || memn y pok1 || memn y (opt_list va1)
+                                          || memn y (kwoargs so) || memn y (opt_list (varkwargs so))).
+  { destruct (h_args h || h_varargs h); inversion Eva; subst; clear Eva.
+    - rewrite pop_star_true. split; [left; reflexivity|].
+      split; [apply pop_star_nodup; exact C1a|]. split; [apply NE_pop_star; exact C1b|].
+      intros y. rewrite pop_star_mem, popped_opt, C1c. cbn [opt_list andb]. rewrite memn_nil.
+      pose proof (Hcnt y) as Hy.
+      cnt_case (memn y pos1) EP; cnt_case (memn y pok1) EK;
+        cnt_case (memn y (opt_list (varargs so))) EV; cnt_case (memn y (kwoargs so)) EW;
+        cnt_case (memn y (opt_list (varkwargs so))) EZ; first [reflexivity | exfalso; lia].
+    - split; [right; reflexivity|]. split; [exact C1a|]. split; [exact C1b | exact C1c]. }
+  destruct C2 as (C2v & C2a & C2b & C2c).
+  assert (Hv1 : forall y, memn y (opt_list va1) = true -> memn y (opt_list (varargs so)) = true).
+  { intros y. destruct C2v as [-> | ->]; [discriminate | auto]. }
+  destruct (if h_kwargs h then _ else _) as [[[pok2 kwo2] src3] named2] eqn:Ek.
+  assert (C3 : (pok2 = [] \/ pok2 = pok1) /\ (kwo2 = [] \/ kwo2 = kwoargs so) /\
+               (named2 = [] \/ named2 = named0) /\ NoDup (keys src3) /\ NE src3 /\
+               forall y, src_mem src3 y = memn y pos1 || memn y pok2 || memn y (opt_list va1)
+                                          || memn y kwo2 || memn y (opt_list (varkwargs so))).
+  { destruct (h_kwargs h); inversion Ek; subst; clear Ek.
+    - split; [left; reflexivity|]. split; [left; reflexivity|]. split; [left; reflexivity|].
+      split; [apply nodup_pop_all; apply nodup_pop_all; exact C2a|].
+      split; [apply NE_pop_all; apply NE_pop_all; exact C2b|].
+      intros y. rewrite !src_pop_all_mem, C2c. fold (memn y pok1) (memn y (kwoargs so)). rewrite memn_nil.
+      pose proof (Hcnt y) as Hy. pose proof (Hv1 y) as Hy1.
+      cnt_case (memn y pos1) EP; cnt_case (memn y pok1) EK;
+        cnt_case (memn y (kwoargs so)) EW; cnt_case (memn y (opt_list (varkwargs so))) EZ;
+        destruct (memn y (opt_list va1)) eqn:EV1;
+        try (specialize (Hy1 eq_refl); apply memn_cntn in Hy1);
+        first [reflexivity | exfalso; lia].
+    - split; [right; reflexivity|]. split; [right; reflexivity|]. split; [right; reflexivity|].
+      split; [exact C2a|]. split; [exact C2b | exact C2c]. }
+  destruct C3 as (C3p & C3k & C3n & C3a & C3b & C3c).
+  assert (Hp2 : forall y, (cntn y pok2 <= cntn y pok1)%nat).
+  { intros y. destruct C3p as [-> | ->]; [rewrite cntn_nil; lia | lia]. }
+  assert (Hk2 : forall y, (cntn y kwo2 <= cntn y (kwoargs so))%nat).
+  { intros y. destruct C3k as [-> | ->]; [rewrite cntn_nil; lia | lia]. }
+  apply bind_ok in E. destruct E as [st [Est E]].
+  set (fx := pos1 ++ opt_list (varkwargs so)).
+  assert (HK0 : KI pm fx (varargs so) (mkK pok2 va1 kwo2 src3 consumed)).
+  { unfold KI. cbn [k_src k_pok k_va k_kwo]. split; [exact C3a|]. split; [|split; [exact C3b|split]].
+    - intros y. rewrite C3c. unfold live, fx. cbn [k_pok k_va k_kwo]. rewrite memn_app. btauto.
+    - intros v Hv0. subst va1. destruct C2v as [C|C]; [discriminate C|].
+      pose proof (Hcnt (pname v)) as Hy. rewrite <- C, cntn_opt_self in Hy.
+      pose proof (Hp2 (pname v)). pose proof (Hk2 (pname v)).
+      split; [symmetry; exact C|]. unfold fx.
+      repeat split; apply cntn_memn_false; rewrite ?cntn_app; lia.
+    - intros _ y. pose proof (Hcnt y). pose proof (Hp2 y). pose proof (Hk2 y).
+      unfold fx. rewrite cntn_app. lia. }
+  assert (HK : KI pm fx (varargs so) st).
+  { eapply mask_names_KI; [exact HK0 | | exact Est].
+    intros Hn v Hv0. destruct (Hpm Hn) as [_ Hnot]. destruct C3n as [-> | ->]; [intros [] | apply Hnot; exact Hv0]. }
+  destruct HK as (K1 & K2 & K3 & K4 & K5).
+  destruct (if h_kwargs h || h_varkwargs h then _ else _) as [vk3 src4] eqn:Evk.
+  assert (C4 : wf_src src4 (names_of (flatten (mkSorted pos1 (k_pok st) (k_va st) (k_kwo st) vk3 src4 [])))).
+  { assert (Hfl : forall y (d : depths), mem y (names_of (flatten (mkSorted pos1 (k_pok st) (k_va st) (k_kwo st) vk3 src4 d)))
+                   = memn y (k_pok st) || memn y (opt_list (k_va st)) || memn y (k_kwo st)
+                     || memn y pos1 || memn y (opt_list vk3)).
+    { intros y d. fold (memn y (flatten (mkSorted pos1 (k_pok st) (k_va st) (k_kwo st) vk3 src4 d))).
+      unfold flatten. cbn [posargs pokargs varargs kwoargs varkwargs]. rewrite !memn_app. btauto. }
+    destruct (h_kwargs h || h_varkwargs h) eqn:Eh; inversion Evk; subst; clear Evk.
+    - rewrite pop_star_true.
+      assert (Hnone : pm = None).
+      { destruct pm as [pobj|]; [|reflexivity]. destruct (Hpm ltac:(discriminate)) as [A _]. discriminate A. }
+      assert (KK : forall y, src_mem (pop_star true (varkwargs so) (k_src st)) y =
+                     memn y (k_pok st) || memn y (opt_list (k_va st)) || memn y (k_kwo st)
+                     || memn y pos1 || memn y (opt_list None)).
+      { intros y. rewrite pop_star_mem, popped_opt, K2. unfold live, fx. rewrite memn_app. cbn [opt_list andb].
+        rewrite memn_nil.
+        destruct (memn y (opt_list (varkwargs so))) eqn:EZ; [|cbn [negb]; btauto].
+        pose proof (K5 Hnone y) as Hy. unfold fx in Hy. rewrite cntn_app in Hy.
+        pose proof (memn_cntn _ _ EZ) as Hz.
+        assert (Hva0 : memn y (opt_list (k_va st)) = false).
+        { apply (va_false_of pm fx (varargs so) st y); [unfold KI; auto|].
+          right; right. unfold fx. rewrite memn_app, EZ. apply orb_true_r. }
+        rewrite Hva0.
+        cnt_case (memn y (k_pok st)) E1; cnt_case (memn y (k_kwo st)) E2; cnt_case (memn y pos1) E3;
+          first [reflexivity | exfalso; lia]. }
+      split; [apply pop_star_nodup; exact K1|]. split.
+      + intros y. rewrite Hfl. apply KK.
+      + intros y Hy. rewrite Hfl, <- KK in Hy. apply (NE_pop_star true (varkwargs so) _ K3). exact Hy.
+    - split; [exact K1|]. split.
+      + intros y. rewrite Hfl, K2. unfold live, fx. rewrite memn_app. btauto.
+      + intros y Hy. apply K3. rewrite K2. rewrite Hfl in Hy. unfold live, fx. rewrite memn_app, <- Hy. btauto. }
+  destruct pm as [pobj|]; cbv beta iota in E;
+    (eapply apply_params_src_ok; [|exact E]); unfold sorted_ok; cbn [ssrc]; exact C4.
+Qed.
+
+Theorem mask_src_ok s n names0 h r :
+  mask s n names0 h = Ok r -> valid_sig (params s) = true -> src_ok s -> src_ok r.
+Proof.
+  unfold mask. intros E Hv Hs. eapply mask_gen_src_ok; [exact E | exact Hv | exact Hs|].
+  intros H. exfalso. apply H. reflexivity.
+Qed.
+
+Theorem sig_partial_src_ok s n kw pobj r :
+  sig_partial s n kw pobj = Ok r -> valid_sig (params s) = true -> src_ok s ->
+  (forall v, varargs (sort_params s) = Some v -> ~ In (pname v) (map fst kw)) ->
+  src_ok r.
+Proof.
+  unfold sig_partial. intros E Hv Hs Hkw. eapply mask_gen_src_ok; [exact E | exact Hv | exact Hs|].
+  intros _. split; [reflexivity | exact Hkw].
+Qed.
+
+(* forwards = embed o mask; in partial mode the inner parameters get defaults first *)
+Definition defaulted (p : param) : param :=
+  match pkind p with VP | VK => p | _ => set_def (Some 0) p end.
+
+Lemma defaulted_name p : pname (defaulted p) = pname p.
+Proof. unfold defaulted. destruct (pkind p); reflexivity. Qed.
+Lemma defaulted_kind p : pkind (defaulted p) = pkind p.
+Proof. unfold defaulted. destruct (pkind p) eqn:E; cbn [set_def pkind]; rewrite ?E; reflexivity. Qed.
+
+Lemma validate_aux_defaulted ps : forall top sd sd' seen,
+  validate_aux ps top sd seen = true -> validate_aux (map defaulted ps) top sd' seen = true.
+Proof.
+  induction ps as [|p ps IH]; intros top sd sd' seen H; [reflexivity|].
+  cbn [map validate_aux] in *. rewrite defaulted_kind, defaulted_name.
+  destruct (Nat.ltb (kind_rank (pkind p)) top); [discriminate|].
+  assert (Hpos : is_positional (defaulted p) && negb (has_def (defaulted p)) && sd' = false).
+  { unfold is_positional, defaulted. destruct (pkind p) eqn:Ek; cbn; rewrite ?Ek; reflexivity. }
+  rewrite Hpos.
+  destruct (is_positional p && negb (has_def p) && sd); [discriminate|].
+  destruct (mem (pname p) seen); [discriminate|]. eapply IH. exact H.
+Qed.
+
+Lemma count_kind_defaulted k ps : count_kind k (map defaulted ps) = count_kind k ps.
+Proof.
+  unfold count_kind. induction ps as [|p ps IH]; [reflexivity|]. cbn [map filter].
+  assert (E : is_kind k (defaulted p) = is_kind k p) by (unfold is_kind; rewrite defaulted_kind; reflexivity).
+  rewrite E. destruct (is_kind k p); cbn [length]; rewrite IH; reflexivity.
+Qed.
+
+Lemma valid_sig_defaulted ps : valid_sig ps = true -> valid_sig (map defaulted ps) = true.
+Proof.
+  unfold valid_sig. rewrite !count_kind_defaulted. intros H.
+  apply andb_true_iff in H. destruct H as [H H3]. apply andb_true_iff in H. destruct H as [H1 H2].
+  rewrite H2, H3. unfold validate in *. rewrite (validate_aux_defaulted _ _ _ false _ H1). reflexivity.
+Qed.
+
+Lemma names_defaulted ps : names_of (map defaulted ps) = names_of ps.
+Proof. unfold names_of. rewrite map_map. apply map_ext. apply defaulted_name. Qed.
+
+Theorem forwards_src_ok o i n names0 ha hk uva uvk pt r :
+  forwards o i n names0 ha hk uva uvk pt = Ok r ->
+  valid_sig (params o) = true -> src_ok o -> valid_sig (params i) = true -> src_ok i -> src_ok r.
+Proof.
+  unfold forwards. intros E Hvo Ho Hvi Hi. apply bind_ok in E. destruct E as [m [Em E]].
+  eapply embed2_src_ok; [exact E | exact Hvo | exact Ho|]. apply src_ok_nonempty.
+  eapply mask_src_ok; [exact Em | |].
+  - destruct pt; [|exact Hvi]. cbn [params]. apply (valid_sig_defaulted _ Hvi).
+  - destruct pt; [|exact Hi]. unfold src_ok. cbn [params srcs].
+    fold (map defaulted (params i)). rewrite names_defaulted. exact Hi.
+Qed.
+
+(* ================================================================== *)
+(* Part 6 — what is false of the model                                 *)
+
+Definition dsig (f : N) (ps : list param) : sigT :=
+  mkSig ps None UEmpty (map (fun p => (pname p, [f])) ps) [(f, 0)].
+Definition bp (x : name) (k : kind) : param := mkParam x k None None UEmpty.
+
+Lemma dsig_src_ok f ps : valid_sig ps = true -> src_ok (dsig f ps).
+Proof. apply valid_default_sources_ok. Qed.
+
+(* the n-ary embed without the stars_apart hypothesis: the star-args of the
+   middle signature is named like a parameter of the outer one; the second step
+   pops that name from the accumulated map.
+   embed((x, *a, **k), ( *x, **k), ( *args)) = (x, *args) with sources {args}. *)
+Theorem embed_src_ok_refuted :
+  exists s0 s1 s2 r,
+    valid_sig (params s0) = true /\ valid_sig (params s1) = true /\ valid_sig (params s2) = true /\
+    src_ok s0 /\ src_ok s1 /\ src_ok s2 /\
+    embed [s0; s1; s2] true true = Ok r /\ src_mem (srcs r) 1 = false /\
+    mem 1 (names_of (params r)) = true /\ ~ src_ok r.
+Proof.
+  exists (dsig 100 [bp 1 PK; bp 9 VP; bp 10 VK]), (dsig 101 [bp 1 VP; bp 10 VK]), (dsig 102 [bp 11 VP]).
+  eexists.
+  split; [vm_compute; reflexivity|]. split; [vm_compute; reflexivity|]. split; [vm_compute; reflexivity|].
+  split; [apply dsig_src_ok; vm_compute; reflexivity|].
+  split; [apply dsig_src_ok; vm_compute; reflexivity|].
+  split; [apply dsig_src_ok; vm_compute; reflexivity|].
+  split; [vm_compute; reflexivity|]. split; [vm_compute; reflexivity|]. split; [vm_compute; reflexivity|].
+  intros (_ & H & _). specialize (H 1). vm_compute in H. discriminate H.
+Qed.
+
+(* signature(functools.partial(f, args=7, a=7)) for f(a, *args, **kw): the new
+   keyword-only parameter `args` loses its entry when *args is removed *)
+Theorem sig_partial_keys_refuted :
+  exists s kw pobj r,
+    valid_sig (params s) = true /\ src_ok s /\ sig_partial s 0 kw pobj = Ok r /\
+    mem 9 (names_of (params r)) = true /\ src_mem (srcs r) 9 = false /\ ~ src_ok r.
+Proof.
+  exists (dsig 100 [bp 1 PK; bp 9 VP; bp 10 VK]), [(9, 7); (1, 7)], 200.
+  eexists.
+  split; [vm_compute; reflexivity|].
+  split; [apply dsig_src_ok; vm_compute; reflexivity|].
+  split; [vm_compute; reflexivity|]. split; [vm_compute; reflexivity|]. split; [vm_compute; reflexivity|].
+  intros (_ & H & _). specialize (H 9). vm_compute in H. discriminate H.
+Qed.
+
+(* duplicate-freedom of the lists is false (DESIGN section 6 #10): a callable
+   that reaches a parameter through both operands is listed twice *)
+Theorem merge_nodup_refuted :
+  exists a b r, src_ok a /\ src_ok b /\
+    (forall x, NoDup (src_get (srcs a) x)) /\ (forall x, NoDup (src_get (srcs b) x)) /\
+    merge [a; b] = Ok r /\ src_get (srcs r) 1 = [100; 100].
+Proof.
+  exists (dsig 100 [bp 1 PK]), (dsig 100 [bp 1 PK]). eexists.
+  assert (Hn : forall x, NoDup (src_get (srcs (dsig 100 [bp 1 PK])) x)).
+  { intros x. cbn. destruct (N.eqb x 1); repeat constructor; intros []; try discriminate; auto. }
+  split; [apply dsig_src_ok; vm_compute; reflexivity|].
+  split; [apply dsig_src_ok; vm_compute; reflexivity|].
+  split; [exact Hn|]. split; [exact Hn|].
+  split; vm_compute; reflexivity.
+Qed.
+
+(* the hypotheses are satisfiable on non-trivial inputs *)
+Example merge_src_ok_sat :
+  exists r, merge [dsig 100 [bp 1 PO; bp 2 PK; bp 9 VP; bp 10 VK]; dsig 101 [bp 3 PK; bp 2 PK; bp 4 KO];
+                   dsig 102 [bp 1 PK; bp 9 VP; bp 10 VK]] = Ok r /\
+            Forall src_ok [dsig 100 [bp 1 PO; bp 2 PK; bp 9 VP; bp 10 VK]; dsig 101 [bp 3 PK; bp 2 PK; bp 4 KO];
+                           dsig 102 [bp 1 PK; bp 9 VP; bp 10 VK]].
+Proof.
+  eexists. split; [vm_compute; reflexivity|].
+  constructor; [apply dsig_src_ok; vm_compute; reflexivity|].
+  constructor; [apply dsig_src_ok; vm_compute; reflexivity|].
+  constructor; [apply dsig_src_ok; vm_compute; reflexivity|]. constructor.
+Qed.
+
+Example embed_src_ok_sat :
+  exists r, embed [dsig 100 [bp 1 PK; bp 9 VP; bp 10 VK]; dsig 101 [bp 2 PK; bp 9 VP; bp 10 VK];
+                   dsig 102 [bp 3 PK; bp 4 KO]] true true = Ok r /\
+            stars_apart [dsig 100 [bp 1 PK; bp 9 VP; bp 10 VK]; dsig 101 [bp 2 PK; bp 9 VP; bp 10 VK];
+                         dsig 102 [bp 3 PK; bp 4 KO]] = true.
+Proof. eexists. split; vm_compute; reflexivity. Qed.
+
+Example sig_partial_src_ok_sat :
+  exists r, sig_partial (dsig 100 [bp 1 PK; bp 2 PK; bp 9 VP; bp 10 VK]) 1 [(2, 7); (5, 8)] 200 = Ok r /\
+            (forall v, varargs (sort_params (dsig 100 [bp 1 PK; bp 2 PK; bp 9 VP; bp 10 VK])) = Some v ->
+                       ~ In (pname v) (map fst [(2, 7); (5, 8)])).
+Proof.
+  eexists. split; [vm_compute; reflexivity|]. intros v Hv. vm_compute in Hv. inversion Hv; subst.
+  cbn. intros [H|[H|[]]]; discriminate H.
+Qed.
+
+(* truthful for embed: a callable listed for x in the result is listed for x
+   in the outer or in the inner signature *)
+Theorem embed2_truthful o i uva uvk r x f :
+  embed [o; i] uva uvk = Ok r -> valid_sig (params o) = true -> src_ok o ->
+  In f (src_get (srcs r) x) -> In f (src_get (srcs o) x) \/ In f (src_get (srcs i) x).
+Proof.
+  cbn [embed embed_steps]. intros E Hv Ho Hf.
+  apply bind_ok in E. destruct E as [acc [E1 E2]].
+  apply bind_ok in E1. destruct E1 as [acc1 [E0 E1]]. apply to_incompatible_ok in E0.
+  inversion E1; subst. clear E1.
+  destruct (apply_params_fields _ _ _ E2) as [_ Es]. rewrite Es in Hf. clear E2 Es.
+  pose proof (sort_params_sorted_ok o Hv Ho) as (O1 & _ & _).
+  unfold embed_step in E0. apply bind_ok in E0. destruct E0 as [m [Em E0]].
+  apply bind_ok in E0. destruct E0 as [n1 [_ E0]].
+  apply bind_ok in E0. destruct E0 as [n2 [_ E0]].
+  apply bind_ok in E0. destruct E0 as [[[e_pos e_pok] n3] [_ E0]].
+  apply bind_ok in E0. destruct E0 as [n4 [_ E0]].
+  apply bind_ok in E0. destruct E0 as [n5 [_ E0]].
+  apply bind_ok in E0. destruct E0 as [n6 [_ E0]].
+  inversion E0; subst. clear E0. cbn [ssrc] in Hf.
+  set (so := sort_params o) in *.
+  fold (pop_star uva (varargs so) (ssrc so)) in Hf.
+  fold (pop_star uvk (varkwargs so) (pop_star uva (varargs so) (ssrc so))) in Hf.
+  set (o2 := pop_star uvk (varkwargs so) (pop_star uva (varargs so) (ssrc so))) in *.
+  fold (overlay o2 (ssrc m)) in Hf.
+  assert (N2 : NoDup (keys o2)) by (unfold o2; apply pop_star_nodup; apply pop_star_nodup; exact O1).
+  rewrite (overlay_get _ N2) in Hf. destruct (src_mem o2 x).
+  - left. unfold o2 in Hf. rewrite !pop_star_get in Hf.
+    destruct (popped uvk (varkwargs so) x); [destruct Hf|].
+    destruct (popped uva (varargs so) x); [destruct Hf|].
+    unfold so in Hf. rewrite sort_params_ssrc in Hf. exact Hf.
+  - destruct (merger_truthful _ _ _ _ _ Em Hf) as [H|H].
+    + right. rewrite sort_params_ssrc in H. exact H.
+    + cbn [ssrc src_get] in H. destruct H.
+Qed.
+
+Example forwards_src_ok_sat :
+  exists r, forwards (dsig 100 [bp 1 PK; bp 9 VP; bp 10 VK]) (dsig 101 [bp 2 PK; bp 3 PK; bp 4 KO]) 1 [4]
+                     false false true true false = Ok r /\
+            srcs r = [(3, [101]); (1, [100])].
+Proof. eexists. split; vm_compute; reflexivity. Qed.
+
+Print Assumptions merger_Inv.
+Print Assumptions merger_sorted_ok.
+Print Assumptions merger_truthful.
+Print Assumptions merge_src_ok_weak.
+Print Assumptions merge_src_ok.
+Print Assumptions merge_src_ok_single.
+Print Assumptions merge_src_ok_valid.
+Print Assumptions merge_truthful.
+Print Assumptions default_sources_ok.
+Print Assumptions embed_step_sorted_ok.
+Print Assumptions embed2_src_ok.
+Print Assumptions embed_src_ok.
+Print Assumptions embed2_truthful.
+Print Assumptions mask_gen_src_ok.
+Print Assumptions mask_src_ok.
+Print Assumptions sig_partial_src_ok.
+Print Assumptions forwards_src_ok.
+Print Assumptions embed_src_ok_refuted.
+Print Assumptions sig_partial_keys_refuted.
+Print Assumptions merge_nodup_refuted.
+Print Assumptions merge_src_ok_sat.
+Print Assumptions embed_src_ok_sat.
+Print Assumptions sig_partial_src_ok_sat.
+Print Assumptions forwards_src_ok_sat.
